@@ -38,10 +38,12 @@ EXHAUSTIVE = {'quick': 'every (class, W, m) with W over all reachable observatio
 CLONE = 'inv.clone(copy/deepcopy/pickle: both objects==fresh twin of own values, live reads)'
 MIN_EVALS = {'quick': {'inv.after-op(all observables==fresh twin)': 8000, 'read.idempotent': 3000, 'read.non-interfering': 3000,
                        'inv.derived-object(all observables==fresh twin)': 1500, CLONE: 500,
-                       'set.value-kept(periods / smoothing frequencies as given)': 1500},
+                       'set.value-kept(periods / smoothing frequencies as given)': 1500,
+                       'settings-unchanged-by-reads-and-mutators': 15000},
              'thorough': {'inv.after-op(all observables==fresh twin)': 250000, 'read.idempotent': 80000, 'read.non-interfering': 80000,
                           'inv.derived-object(all observables==fresh twin)': 12000, CLONE: 800,
-                          'set.value-kept(periods / smoothing frequencies as given)': 40000}}
+                          'set.value-kept(periods / smoothing frequencies as given)': 40000,
+                          'settings-unchanged-by-reads-and-mutators': 400000}}
 
 OBS_SIG = ['npts', 'time', 'values', 'fa_spectrum', 'fa_freqs', 'fa_frequencies', 'smooth_fa_spectrum', 'smooth_fa_freqs',
            'fa_spectrum_abs']
@@ -137,6 +139,7 @@ def op_list(cls_name, rng, n, dt=None, amp=1.0):
         ('running_average', {'width': 4}),
         ('set:smooth_fa_freqs', {'freqs': f1}),
         ('set:smooth_fa_frequencies', {'freqs': f2}),
+        ('set:smooth_fa_freqs', {'freqs': np.array([2.0, 20.0, 70.0, 130.0]) / q}),      # two targets above the Nyquist frequency
         ('set_smooth_fa_frequecies_by_range', {'limits': (0.4 / q, 20.0 / q), 'n_points': 7}),
         ('set:smooth_freq_range', {'limits': (0.3 / q, 15.0 / q)}),
         ('set:smooth_freq_points', {'value': 9}),
@@ -330,6 +333,36 @@ def apply_op(eqsig, obj, op):
         return getattr(obj, name)(**kw)
 
 
+def is_settings_op(op):
+    name, kw = op
+    if name.startswith('set:') and name != 'set:values':
+        return True
+    if name == 'set_smooth_fa_frequecies_by_range':
+        return True
+    if name in ('gen_smooth_fa_spectrum',) and kw.get('smooth_fa_freqs') is not None:
+        return True
+    if name in ('gen_response_spectrum', 'generate_response_spectrum', 'response_series') and kw.get('response_times') is not None:
+        return True
+    return False
+
+
+def settings_of(obj):
+    out = {}
+    for k in ('smooth_fa_freqs', 'response_times'):
+        if hasattr(obj, k):
+            try:
+                out[k] = np.array(getattr(obj, k), dtype=float, copy=True)
+            except Exception as e:
+                out[k] = 'EXC:' + type(e).__name__
+    return out
+
+
+def same_setting(a, b):
+    if isinstance(a, str) or isinstance(b, str) or b is None:
+        return isinstance(a, str) and isinstance(b, str) and a == b
+    return a.shape == b.shape and bool(np.array_equal(a, b))
+
+
 def describe(op):
     name, kw = op
     return name + '(' + ','.join('%s=%s' % (k, ('arr%d' % len(v)) if hasattr(v, '__len__') and not isinstance(v, (str, tuple)) else v)
@@ -500,6 +533,9 @@ def run_history(hook, eqsig, cls_name, base, history, check_every=True, rng=None
     okk = True
     for op in history:
         name = op[0]
+        keeps = not is_settings_op(op)
+        if keeps:
+            before_settings = settings_of(obj)
         try:
             if name.startswith('read:') and reads_checked:
                 hook.read_checks(obj, cls_name, base, done, name[5:])
@@ -513,6 +549,15 @@ def run_history(hook, eqsig, cls_name, base, history, check_every=True, rng=None
             # afterwards - a failed operation must not leave stale derived quantities behind either.
             ctx.observe('operation-raised:%s:%s' % (name, type(e).__name__))
         done.append(op)
+        if keeps:
+            # the settings the user gave (smoothing frequencies, response periods) are changed by settings operations only:
+            # a read, an analysis call or a value mutator that rewrites them (e.g. drops targets above the Nyquist frequency
+            # while generating the smoothed spectrum) makes the object differ from the fresh object "with the same settings"
+            now = settings_of(obj)
+            changed = [k for k in before_settings if not same_setting(before_settings[k], now.get(k))]
+            ctx.check(not changed, 'settings-unchanged-by-reads-and-mutators',
+                      lambda: dict(hook.witness(cls_name, base, done), changed=changed),
+                      '%s: %s changed the settings %s' % (cls_name, describe(op), changed))
         if name in ('set:response_times', 'set:smooth_fa_freqs', 'set:smooth_fa_frequencies'):
             attr = 'response_times' if name == 'set:response_times' else 'smooth_fa_freqs'
             given = np.asarray(op[1]['rt' if attr == 'response_times' else 'freqs'], dtype=float)
